@@ -121,6 +121,27 @@ def _skip_divisions(node):
     return isinstance(node, Chunk) or type(node).__name__ in ("TreeReduce", "ShuffleReduce", "GroupByChunk", "GroupByApplyConcatApply")
 
 
+def _node_selection(node):
+    """shape of the partition selection a node carries (its own `_partitions`, FusedIO's reader, or — for
+    `_SetIndexPost` — the filtered shuffle below it): none / ascending / reordered / repeated"""
+    from dask_expr._expr import PartitionsFiltered
+
+    cands = []
+    inner = node.operand("_expr") if "_expr" in getattr(type(node), "_parameters", []) else None
+    for x in (node, inner):
+        if isinstance(x, PartitionsFiltered) and x._filtered:
+            cands.append(list(x._partitions))
+    if not cands and type(node).__name__ == "_SetIndexPost":
+        for x in node.frame.walk():
+            if isinstance(x, PartitionsFiltered) and x._filtered:
+                cands.append(list(x._partitions))
+                break
+    if not cands:
+        return "none"
+    shape = c11._sel_shape(cands[0])
+    return shape if shape in ("repeated", "reordered") else "ascending"
+
+
 def plan_problem(expr):
     """First (deepest) node of a lowered plan whose reported structure is not truthful.
     -> None | (node class, what, detail)"""
@@ -168,17 +189,35 @@ def plan_problem(expr):
             continue
         parts = list(parts)
         if len(parts) != np_:
-            return (type(node).__name__, "npartitions", f"{type(node).__name__}: {len(parts)} computed partitions, npartitions={np_}")
+            return (type(node).__name__, "npartitions", f"{type(node).__name__}: {len(parts)} computed partitions, npartitions={np_}", _node_selection(node))
         if len(divs) != np_ + 1:
-            return (type(node).__name__, "divisions-length", f"{type(node).__name__}: {len(divs)} divisions for npartitions={np_}")
+            return (type(node).__name__, "divisions-length", f"{type(node).__name__}: {len(divs)} divisions for npartitions={np_}", _node_selection(node))
         if _skip_divisions(node):
             continue
         if any(d is None for d in divs) or any(isinstance(d, float) and np.isnan(d) for d in divs):
             continue  # unknown divisions claim nothing
         msg = division_problems(divs, parts)
         if msg:
-            return (type(node).__name__, "divisions", f"{type(node).__name__}: {msg}")
+            return (type(node).__name__, "divisions", f"{type(node).__name__}: {msg}", _node_selection(node))
     return None
+
+
+def _logical_sig(q, top, below, what):
+    """signature of a logical-level partition-count mismatch; a Repartition sitting on a sort / set_index anywhere
+    in the plan is named as the mechanism (the count it reports is the requested one, its divisions and plan are
+    those of the sort it was pushed below)"""
+    from dask_expr._repartition import Repartition
+    from dask_expr._shuffle import BaseSetIndexSortValues
+
+    for x in q.expr.walk():
+        if isinstance(x, Repartition) and isinstance(x.frame, BaseSetIndexSortValues):
+            return {"check": "structure", "mechanism": "repartition-above-sort", "what": "logical-npartitions"}
+    if top == "Merge":
+        e = q.expr
+        if getattr(e, "merge_indexed_left", False) and getattr(e, "merge_indexed_right", False) \
+                and min(e.left.npartitions, e.right.npartitions) == 1:
+            return {"check": "structure", "mechanism": "indexed-merge-single-partition-side", "what": "logical-npartitions"}
+    return {"check": "structure", "node": top, "below": below, "what": what}
 
 
 # =========================================================================== metadata-only row counts
@@ -214,6 +253,8 @@ def length_problem(q, opt_len_only=False):
     if rs[0] == "err":
         return (f"size-raised:{rs[1]}", f".size raised {rs[1]}: {rs[2]}")
     if int(rs[1]) != want_size:
+        if isinstance(whole, pd.DataFrame) and whole.shape[1] == 0:
+            return ("size-zero-columns", f".size = {rs[1]}, the computed frame has no columns (size 0)")
         return ("size", f".size = {rs[1]}, computed data has size {want_size}")
     rsh = e2e.run_or_err(lambda: tuple(int(v.compute()) if hasattr(v, "compute") else int(v) for v in q.shape))
     if rsh[0] == "err":
@@ -299,6 +340,7 @@ DED_OPS = {
     "set_index_a": lambda x, k: x.set_index("a"),
     "sort_values": lambda x, k: x.sort_values("a"),
     "set_index_parts": lambda x, k: x.set_index("a").partitions[[0, 2]] if x.npartitions > 2 else x.set_index("a"),
+    "set_index_parts_rep": lambda x, k: x.set_index("a").partitions[[0, 0]] if x.npartitions > 2 else x.set_index("a"),
     "set_index_parts_rev": lambda x, k: x.set_index("a").partitions[[1, 0]] if x.npartitions > 2 else x.set_index("a"),
     "shuffle": lambda x, k: x.shuffle("b", shuffle_method="tasks"),
     "concat_mono": lambda x, k: _concat_mono(x, k),
@@ -439,19 +481,22 @@ def run_case(case):
         deps = q.expr.dependencies()
         below = type(deps[0]).__name__ if deps else "-"
         if nd != np_ + 1:
-            return ({"check": "structure", "node": top, "below": below, "what": "divisions-length"},
+            return (_logical_sig(q, top, below, "divisions-length"),
                     f"logical {top}({below}): npartitions={np_} but {nd} divisions")
         n_low = st[1][0][1].npartitions
         from dask_expr.io.io import FusedIO  # noqa: F401  (tune-stage fusion changes counts only in optimised stages)
 
         if n_low != np_:
-            return ({"check": "structure", "node": top, "below": below, "what": "npartitions"},
+            return (_logical_sig(q, top, below, "npartitions"),
                     f"logical {top}({below}): npartitions={np_}, its lowered plan has {n_low} partitions")
     for stage, e in st[1]:
         pr = plan_problem(e)
         if pr:
-            node, what, detail = pr
-            return ({"check": "structure", "node": node, "what": what}, f"stage {stage}: {detail}")
+            node, what, detail = pr[:3]
+            sig = {"check": "structure", "node": node, "what": what}
+            if len(pr) > 3:
+                sig["selection"] = pr[3]
+            return (sig, f"stage {stage}: {detail}")
     if _is_frame(q._meta) and not isinstance(q._meta, pd.Index):
         lp = length_problem(q)
         if lp:
@@ -473,6 +518,10 @@ def _rowcount_sig(q, what):
             break
     spine = [x for x in _plan_shape(q).split("/") if x != "Partitions"]
     through = "/".join(spine[:-1]) or "-"
+    if what == "size-zero-columns":
+        return {"check": "rowcount", "what": "size", "mechanism": "zero-column-frame"}
+    if what == "lengths" and "AlignPartitions" in through:
+        return {"check": "rowcount", "what": "lengths", "mechanism": "lengths-through-aligned-binop"}
     if "/Filter" in through and spine[0] in ("Add", "Sub", "Mul"):
         # Len pushed through a binary operation whose operands were filtered differently
         return {"check": "rowcount", "what": what, "mechanism": "len-through-binop-of-filtered-operands"}
